@@ -67,6 +67,9 @@ def make_sorted(tag, elements=True, order=True):
             sv = lift(v)
             # (sorted is a function of its argument: the same set gives the same list, so a clause can name the list again)
             r = z3.Function("c18_sorted_set_" + T._mangle(et), v.ty.sort(), T.List(et).sort())(sv)
+            if ("c18sorted", tag, r.get_id()) in st.ghost:  # the facts about this very list are already on the path
+                return Val(T.List(et), r)
+            st.ghost[("c18sorted", tag, r.get_id())] = r
             k, k2 = z3.Int(fresh_name("sk")), z3.Int(fresh_name("sk2"))
             x = fresh(et, "sx")
             st.assume((z3.Length(r) == 0) == (sv == z3.K(et.sort(), z3.BoolVal(False))))
@@ -81,6 +84,9 @@ def make_sorted(tag, elements=True, order=True):
         t = v.ty
         s = lift(v)
         r = z3.Function("c18_sorted_list_" + T._mangle(t.elem), t.sort(), t.sort())(s)
+        if ("c18sorted", tag, r.get_id()) in st.ghost:
+            return Val(t, r)
+        st.ghost[("c18sorted", tag, r.get_id())] = r
         k, j, k2 = z3.Int(fresh_name("sk")), z3.Int(fresh_name("sj")), z3.Int(fresh_name("sk2"))
         x = fresh(t.elem, "sx")
         st.assume(z3.Length(r) == z3.Length(s))
@@ -173,6 +179,7 @@ _K = f"list({_OGS})"
 GLC_COMMON = dict(
     props=["C18"], params={"self": Ref("c18_DW")}, returns=Dict(STR, List(INT)),
     requires=["not self.context.isVariable", CONSISTENT],
+    merge_branches=False,
 )
 GLC_LOCALS = {"carets": Dict(STR, List(INT)), "glyphCarets": Set(REAL)}
 OUTER = "for (glyphName, glyph) in self.context.orderedGlyphSet.items()"
@@ -186,7 +193,7 @@ contract(
     ensures={
         # a glyph gets a caret list iff it is exported and has at least one caret_ / vcaret_ anchor
         "only-glyphs-with-caret-anchors": f"all(g in {_OGS} and {_has_caret('g')} for g in result)",
-        "every-glyph-with-caret-anchors": f"all(implies({_has_caret('g')}, g in result) for g in {_OGS})",
+        "every-glyph-with-caret-anchors": f"all(implies({_has_caret(_K + '[a]')}, {_K}[a] in result) for a in range(len({_K})))",
     },
     canaries={"empty": "len(result) == 0"},
     locals=GLC_LOCALS,
@@ -226,53 +233,147 @@ def c18_round(v):
     return otRound(v)
 
 
-def _from_anchor(A, FA, c, bound=None):
-    """value c is the x of a font anchor named like some caret_ anchor of the exported glyph, or the y of one named like some vcaret_ anchor"""
-    n = bound or f"len({A})"
-    return (f"any(({_is_c(A + '[b]')} and any({FA}[b2].name == {A}[b].name and {FA}[b2].x == {c} for b2 in range(len({FA}))))"
-            f" or (not {_is_c(A + '[b]')} and {_is_v(A + '[b]')} and any({FA}[b2].name == {A}[b].name and {FA}[b2].y == {c} for b2 in range(len({FA})))) for b in range({n}))")
+# Precondition UNIQUE (UFO convention; with duplicate names `_getAnchor` reads the first anchor of the name for every one of them — an observation
+# recorded in notes/C18.md, outside these two clause groups): the named anchors of a font glyph have pairwise different names.
+UNIQUE = (f"all(all(all(implies(b1 < b2 and {_FA.format(g='g')}[b1].name is not None, {_FA.format(g='g')}[b1].name != {_FA.format(g='g')}[b2].name)"
+          f" for b2 in range(len({_FA.format(g='g')}))) for b1 in range(len({_FA.format(g='g')}))) for g in {_FGL})")
+ASSIGN = "carets[glyphName] = [otRound(c) for c in sorted(glyphCarets)]"
+ADDX = "glyphCarets.add(self._getAnchor(glyphName, anchor.name)[0])"
+ADDY = "glyphCarets.add(self._getAnchor(glyphName, anchor.name)[1])"
+WL = Dict(STR, List(REAL))  # ghost: glyph -> the sorted, NOT yet rounded coordinates its caret list was made from
+_FAJ = _FGL + "[glyphName].anchors"
+_ROUNDED = "all(g in wl and len(carets[g]) == len(wl[g]) and all(carets[g][k] == c18_round(wl[g][k]) for k in range(len(wl[g]))) for g in carets)"
+_FRAME = "all(g in carets and (g == glyphName or carets[g] == c0[g]) for g in c0) and all(g in c0 or g == glyphName for g in carets)"
+_NEW = "len(carets[glyphName]) == len(sorted(glyphCarets)) and all(carets[glyphName][k] == c18_round(sorted(glyphCarets)[k]) for k in range(len(carets[glyphName])))"
+GLC_W = dict(
+    locals={**GLC_LOCALS, "c0": Dict(STR, List(INT)), "wl": WL},
+    ghost_vars={"c0": (Dict(STR, List(INT)), "{}"), "wl": (WL, "{}")},
+    ghost={"glyphCarets = set()": ["c0 = {**carets}"], ASSIGN: ["wl = {**wl, glyphName: sorted(glyphCarets)}"]},
+)
 
 
-def _sound_at(d, g, k):
-    A, FA = _GA.format(g=g), _FA.format(g=g)
-    return ("any((" + _is_c(A + "[b]") + " and any(" + FA + "[b2].name == " + A + "[b].name and c18_round(" + FA + "[b2].x) == " + d + "[" + g + "][" + k + "] for b2 in range(len(" + FA + "))))"
-            " or (" + _is_v(A + "[b]") + " and any(" + FA + "[b2].name == " + A + "[b].name and c18_round(" + FA + "[b2].y) == " + d + "[" + g + "][" + k + "] for b2 in range(len(" + FA + "))))"
-            " for b in range(len(" + A + ")))")
+GLC_C0 = dict(locals={**GLC_LOCALS, "c0": Dict(STR, List(INT))}, ghost_vars={"c0": (Dict(STR, List(INT)), "{}")}, ghost={"glyphCarets = set()": ["c0 = {**carets}"]})
+
+
+def _cv(A, FA, b):
+    """the coordinate a caret anchor contributes: x of the font anchor at that position for caret_, y for vcaret_"""
+    return f"({FA}[{b}].x if {_is_c(A + '[' + b + ']')} else {FA}[{b}].y)"
+
+
+def _src(A, FA, v, bound=None):
+    """v is the coordinate contributed by some caret_ / vcaret_ anchor of the exported glyph"""
+    return f"any(({_is_c(A + '[b]')} or {_is_v(A + '[b]')}) and {_cv(A, FA, 'b')} == {v} for b in range({bound or 'len(' + A + ')'}))"
+
+
+def _rsrc(A, FA, v):
+    return f"any(({_is_c(A + '[b]')} or {_is_v(A + '[b]')}) and c18_round({_cv(A, FA, 'b')}) == {v} for b in range(len({A})))"
 
 
 contract(
     GLC,
     name="sound",
-    **GLC_COMMON,
+    props=["C18"], params={"self": Ref("c18_DW")}, returns=Dict(STR, List(INT)),
+    requires=["not self.context.isVariable", CONSISTENT, UNIQUE],
+    merge_branches=False,
     globals={"sorted": SORTED_ELEMS},
     ensures={
-        # every listed position is the rounded x of the font's anchor named like a caret_ anchor of the glyph (y for vcaret_)
-        "positions-are-rounded-anchor-coordinates": "all(g in " + _OGS + " and g in " + _FGL + " and all(any(("
-        + _is_c(_GA.format(g="g") + "[b]") + " and any(" + _FA.format(g="g") + "[b2].name == " + _GA.format(g="g") + "[b].name and c18_round(" + _FA.format(g="g") + "[b2].x) == result[g][k] for b2 in range(len(" + _FA.format(g="g") + "))))"
-        + " or (" + _is_v(_GA.format(g="g") + "[b]") + " and any(" + _FA.format(g="g") + "[b2].name == " + _GA.format(g="g") + "[b].name and c18_round(" + _FA.format(g="g") + "[b2].y) == result[g][k] for b2 in range(len(" + _FA.format(g="g") + "))))"
-        + " for b in range(len(" + _GA.format(g="g") + "))) for k in range(len(result[g]))) for g in result)",
+        # every listed position is the rounded x of the (font's) anchor at the position of a caret_ anchor of the glyph, or the rounded y for a vcaret_ anchor
+        "positions-are-rounded-anchor-coordinates": f"all(g in {_OGS} and g in {_FGL} and all(" + _rsrc(_GA.format(g="g"), _FA.format(g="g"), "result[g][k]") + " for k in range(len(result[g]))) for g in result)",
     },
     canaries={"empty": "len(result) == 0"},
-    locals={**GLC_LOCALS, "c0": Dict(STR, List(INT))},
-    ghost_vars={"c0": (Dict(STR, List(INT)), "{}")},
-    ghost={"glyphCarets = set()": ["c0 = {**carets}"]},
-    hints={"carets[glyphName] = [otRound(c) for c in sorted(glyphCarets)]": [
-        # the new entry, in two steps: every position is the rounding of a collected value; every collected value comes from an anchor
-        "len(carets[glyphName]) == len(sorted(glyphCarets)) and all(carets[glyphName][k] == c18_round(sorted(glyphCarets)[k]) and sorted(glyphCarets)[k] in glyphCarets for k in range(len(carets[glyphName])))",
-        "all(" + _from_anchor(_GA.format(g="glyphName"), _FA.format(g="glyphName"), "sorted(glyphCarets)[k]") + " for k in range(len(carets[glyphName])))",
-        "all(" + _sound_at("carets", "glyphName", "k") + " for k in range(len(carets[glyphName])))",
-        # the other entries are untouched (c0: ghost copy of the dict taken at the start of this glyph)
-        "all(g in carets and (g == glyphName or carets[g] == c0[g]) for g in c0) and all(g in c0 or g == glyphName for g in carets)",
-    ]},
+    **GLC_C0,
+    hints={
+        ADDX: [f"{_FAJ}[j].x in glyphCarets"],
+        ADDY: [f"{_FAJ}[j].y in glyphCarets"],
+        ASSIGN: [_NEW, "all(sorted(glyphCarets)[k] in glyphCarets for k in range(len(sorted(glyphCarets))))",
+                 "all(" + _src(_GA.format(g="glyphName"), _FAJ, "sorted(glyphCarets)[k]") + " for k in range(len(sorted(glyphCarets))))",
+                 "all(" + _rsrc(_GA.format(g="glyphName"), _FAJ, "carets[glyphName][k]") + " for k in range(len(carets[glyphName])))", _FRAME],
+    },
     loops={
         OUTER: Loop(index="i", invariants={
-            "sound": "all(g in " + _OGS + " and g in " + _FGL + " and all(any(("
-            + _is_c(_GA.format(g="g") + "[b]") + " and any(" + _FA.format(g="g") + "[b2].name == " + _GA.format(g="g") + "[b].name and c18_round(" + _FA.format(g="g") + "[b2].x) == carets[g][k] for b2 in range(len(" + _FA.format(g="g") + "))))"
-            + " or (" + _is_v(_GA.format(g="g") + "[b]") + " and any(" + _FA.format(g="g") + "[b2].name == " + _GA.format(g="g") + "[b].name and c18_round(" + _FA.format(g="g") + "[b2].y) == carets[g][k] for b2 in range(len(" + _FA.format(g="g") + "))))"
-            + " for b in range(len(" + _GA.format(g="g") + "))) for k in range(len(carets[g]))) for g in carets)",
+            "positions": f"all(g in {_OGS} and g in {_FGL} and all(" + _rsrc(_GA.format(g="g"), _FA.format(g="g"), "carets[g][k]") + " for k in range(len(carets[g]))) for g in carets)",
         }),
+        INNER: Loop(index="j", invariants={"from-anchors": "all(" + _src("glyph.anchors", _FAJ, "c", "j") + " for c in glyphCarets)"}),
+    },
+)
+
+def _listed(d, g):
+    A, FA = _GA.format(g=g), _FA.format(g=g)
+    return ("all(implies(" + _is_c(A + "[b]") + ", any(" + d + "[" + g + "][k] == c18_round(" + FA + "[b].x) for k in range(len(" + d + "[" + g + "]))))"
+            " and implies(not " + _is_c(A + "[b]") + " and " + _is_v(A + "[b]") + ", any(" + d + "[" + g + "][k] == c18_round(" + FA + "[b].y) for k in range(len(" + d + "[" + g + "]))))"
+            " for b in range(len(" + A + ")))")
+
+
+contract(
+    GLC,
+    name="complete",
+    props=["C18"], params={"self": Ref("c18_DW")}, returns=Dict(STR, List(INT)),
+    requires=["not self.context.isVariable", CONSISTENT, UNIQUE],
+    merge_branches=False,
+    globals={"sorted": SORTED_ELEMS},
+    ensures={
+        # the rounded coordinate of every caret_ / vcaret_ anchor of a listed glyph is one of its positions
+        "every-caret-anchor-is-listed": f"all(g in {_OGS} and g in {_FGL} and " + _listed("result", "g") + " for g in result)",
+    },
+    canaries={"empty": "len(result) == 0"},
+    **GLC_C0,
+    hints={
+        ADDX: [f"{_FAJ}[j].x in glyphCarets"],
+        ADDY: [f"{_FAJ}[j].y in glyphCarets"],
+        ASSIGN: [_NEW,
+                 # every collected value is at some position of the sorted list ...
+                 "all(implies(" + _is_c(_GA.format(g="glyphName") + "[b]") + f", any(sorted(glyphCarets)[k] == {_FAJ}[b].x for k in range(len(sorted(glyphCarets)))))"
+                 " and implies(not " + _is_c(_GA.format(g="glyphName") + "[b]") + " and " + _is_v(_GA.format(g="glyphName") + "[b]") + f", any(sorted(glyphCarets)[k] == {_FAJ}[b].y for k in range(len(sorted(glyphCarets)))))"
+                 " for b in range(len(" + _GA.format(g="glyphName") + ")))",
+                 # ... hence its rounding at the same position of the new entry
+                 _listed("carets", "glyphName"), _FRAME,
+                 f"all(implies(g != glyphName, g in {_OGS} and g in {_FGL} and " + _listed("carets", "g") + ") for g in carets)"],
+    },
+    loops={
+        OUTER: Loop(index="i", invariants={"listed": f"all(g in {_OGS} and g in {_FGL} and " + _listed("carets", "g") + " for g in carets)"}),
         INNER: Loop(index="j", invariants={
-            "from-anchors": "all(" + _from_anchor("glyph.anchors", _FGL + "[glyphName].anchors", "c", "j") + " for c in glyphCarets)",
+            "all-anchors": "all(implies(" + _is_c("glyph.anchors[b]") + f", {_FAJ}[b].x in glyphCarets) and implies(not " + _is_c("glyph.anchors[b]") + " and " + _is_v("glyph.anchors[b]") + f", {_FAJ}[b].y in glyphCarets) for b in range(j))",
         }),
     },
 )
+
+
+# ---- run-time side: real GdefFeatureWriter objects on small UFOs ------------------------------------------------------------------------
+_ANCHOR_NAMES = ["caret_1", "caret_2", "caret_", "vcaret_1", "top", "caretx", "Caret_1", "vcaret_", "_caret_1"]
+_GLYPH_NAMES = ["a", "b", "f_i", "acutecomb", "x.comp", "skipped"]
+
+
+def gdef_cases(rng, n):
+    out = []
+    for _ in range(n):
+        glyphs = {}
+        for nm in _GLYPH_NAMES:
+            names = rng.sample(_ANCHOR_NAMES, rng.randint(0, 3))
+            if rng.random() < 0.1 and names:
+                names.append(names[0])  # a duplicate name: UNIQUE is false, the two clause groups that need it skip the case
+            glyphs[nm] = {"anchors": [[an, rng.choice([100, 100.4, 100.5, 250, 99.6, 0, -20.5]), rng.choice([0, 300, 300.5, 10])] for an in names]}
+        out.append({"glyphs": glyphs, "skip": rng.choice([[], ["skipped"], ["skipped", "b"]]),
+                    "names": rng.sample(_GLYPH_NAMES + ["ghost"], rng.randint(0, 5)), "g": rng.choice(_GLYPH_NAMES + ["ghost"]), "a": rng.choice(_ANCHOR_NAMES)})
+    return out
+
+
+def gdef_writer(d):
+    import logging
+
+    from ufo2ft.featureWriters import GdefFeatureWriter
+
+    from . import c17, rtlib
+
+    logging.getLogger("ufo2ft").setLevel(logging.CRITICAL)
+    ufo = rtlib.build_ufo({"glyphs": d["glyphs"], "lib": {"public.skipExportGlyphs": list(d["skip"])} if d["skip"] else {}})
+    w = GdefFeatureWriter()
+    w.setContext(ufo, c17.parse_fea(""))
+    return w
+
+
+CONTRACTS["ufo2ft.featureWriters.baseFeatureWriter:BaseFeatureWriter._getAnchor#c18_DW"].runtime = Runtime(
+    gdef_cases, lambda d: {"self": gdef_writer(d), "glyphName": d["g"], "anchorName": d["a"]}, call=lambda fn, a: fn(a["self"], a["glyphName"], a["anchorName"]))
+CONTRACTS["ufo2ft.featureWriters.gdefFeatureWriter:GdefFeatureWriter._sortedGlyphClass"].runtime = Runtime(
+    gdef_cases, lambda d: {"self": gdef_writer(d), "glyphNames": set(d["names"])}, call=lambda fn, a: fn(a["self"], a["glyphNames"]))
+for _v in ("keys", "sorted", "sound", "complete"):
+    CONTRACTS[GLC + "#" + _v].runtime = Runtime(gdef_cases, lambda d: {"self": gdef_writer(d)}, call=lambda fn, a: fn(a["self"]))
